@@ -231,7 +231,7 @@ pub fn run(world: &World) -> Verdict {
     let finished = Rc::new(RefCell::new(false));
     {
         let svc = NSvc { world: world.clone(), tokio: zlink_tokio::notified::State::new(0), smol: zlink_smol::notified::State::new(0), use_smol, log: log.clone() };
-        let server = Server::new(SimListener { world: world.clone() }, svc);
+        let server = Server::new(SimListener::new(world.clone()), svc);
         let mut ex = Exec::new();
         let fin = finished.clone();
         ex.spawn(async move {
